@@ -98,6 +98,21 @@ CHECKS = {
              "knows; established hops never change.",
         note="Trusts X25519/HMAC/HKDF of ipv8_rust_tunnels. A substituted ephemeral key with valid HMAC yields a hop nobody can "
              "use (broken circuit) which the statement does not forbid and the check does not flag."),
+    "C09": dict(
+        level="fault_enumeration", design="DESIGN.md 4/C09",
+        technique=TECH + ": loss faults enumerated as every subset of <=2 (quick) / <=3 (thorough) control datagrams per "
+                         "(hops x teardown initiator x phase) configuration, default timeouts under virtual time, crashes / clock "
+                         "jumps / stalls / duplication sampled; emptiness oracle at a bound computed from the settings",
+        text="For each of 27 configurations (1..3 hops; teardown by originator, middle relay, exit, or originator crash; half-built, "
+             "ready, mid-transfer with open exit sockets) a fault-free profile lists the control datagrams (create, created, extend, "
+             "extended, relayed handshake cells, destroy) by (link, kind, k-th); every subset up to the tier's size is dropped in "
+             "its own run with DEFAULT TunnelSettings. The virtual clock is then advanced by circuit_timeout + (hops+2) x "
+             "(inactivity + sweep + remove delay) + ping interval (+ backward clock jumps), after which no live node may hold a "
+             "circuit, relay or exit entry, a pending removal task or an open outside transport. Throughout: no join at the "
+             "joined-circuit limit, no relay forwarding more than max_relay_early flagged cells per circuit (also against an "
+             "originator that keeps setting the flag).",
+        note="Enumeration is over drop subsets of the profiled control datagrams; duplication, reordering, crashes of relays, "
+             "stalls and clock jumps are sampled. Crashed nodes are not inspected."),
     "C12": dict(
         level="exploration", design="DESIGN.md 4/C12",
         technique=TECH + ": operation histories (incl. snapshot/restart and LRU-overflow configurations) on the real Network "
